@@ -23,7 +23,7 @@ import os
 import sys
 from fractions import Fraction
 
-REPO = os.environ.get('QS_REPO', '/repo')
+REPO = os.environ.get('QS_REPO') or os.environ.get('QSTRADER_REPO', '/repo')
 HERE = os.path.dirname(os.path.abspath(__file__))
 LEAN = os.path.join(os.path.dirname(HERE), 'lean')
 
